@@ -5,6 +5,7 @@
 //!   jvh trace   : drive the real code with seeded random histories and record one event
 //!                 per specification action for TLC trace validation     (impl -> spec)
 
+mod btree;
 mod crash;
 mod exec;
 mod fault;
@@ -84,6 +85,10 @@ pub fn opts_from(a: &Args, prof: &Profile) -> Opts {
 
 pub static PROGRESS: std::sync::atomic::AtomicU64 = std::sync::atomic::AtomicU64::new(0);
 
+pub fn watchdog_kick() {
+    tick();
+}
+
 pub fn tick() {
     PROGRESS.fetch_add(1, std::sync::atomic::Ordering::Relaxed);
 }
@@ -128,6 +133,7 @@ fn main() {
         "fault-run" => fault::fault_run(&a),
         "workload" => workload::workload(&a),
         "golden" => golden::golden(&a),
+        "btree-run" => btree::btree_run(&a),
         "procs-worker" => procs::worker(&a),
         "procs-run" => procs::run(&a),
         "sched-run" => sched::sched_run(&a),
@@ -315,6 +321,8 @@ pub struct Driver<'a> {
     pub commits: i64,
     pub states: bool,
     pub max_readers: usize,
+    /// percent chance (per step without a writer, >= 2 readers open) that the oldest reader is closed
+    pub reader_churn: i64,
     pub hashes: bool,
     pub p_rollback: u32,
 }
@@ -574,6 +582,11 @@ impl<'a> Driver<'a> {
                         }
                     } else if r < 14 && self.readers.len() < self.max_readers {
                         self.begin(false);
+                    } else if self.readers.len() >= 2 && self.rng.gen_range(0..100) < self.reader_churn {
+                        // the OLDEST of several readers goes away first: the next writer's release bound
+                        // moves into the middle of the pending list
+                        let t = self.readers[0];
+                        self.end(t, false);
                     } else if r < 22 && !self.readers.is_empty() {
                         let t = self.readers[self.rng.gen_range(0..self.readers.len())];
                         if self.rng.gen_bool(0.3) {
@@ -754,6 +767,7 @@ fn trace(a: &Args) -> i32 {
             commits: 0,
             states: a.n("states", 0) != 0,
             max_readers: a.n("max-readers", 2) as usize,
+            reader_churn: a.n("reader-churn", 0),
             hashes: a.n("hashes", 0) != 0,
             p_rollback: a.n("p-rollback", 6) as u32,
         };
